@@ -811,7 +811,7 @@ func (c *Cursor) Get() (interface{}, interface{}, bool) {
 	}
 	pe := c.path[len(c.path)-1]
 	node := pe.node
-	if pe.linkIndex >= len(node.Key) {
+	if pe.linkIndex < 0 || pe.linkIndex >= len(node.Key) {
 		return nil, nil, false
 	}
 	return node.Key[pe.linkIndex], node.Value[pe.linkIndex], true
@@ -921,6 +921,9 @@ func (c *Cursor) search1(ctx context.Context, key interface{}) error {
 // Ceil moves the cursor to the entry with the given key, or if not present,
 // the entry with the next-larger key.
 func (c *Cursor) Ceil(ctx context.Context, key interface{}) error {
+	if len(c.path) == 0 {
+		return nil
+	}
 	for {
 		err := c.search1(ctx, key)
 		if err != nil {
